@@ -9,6 +9,7 @@ import (
 	"sync/atomic"
 	"time"
 
+	"github.com/containerd/nri/pkg/adaptation"
 	"github.com/containerd/nri/pkg/api"
 	"github.com/containerd/nri/pkg/zzverif/vsched"
 
@@ -401,4 +402,242 @@ func engineRestart(f *rep.Flags, res *rep.Result) {
 	}
 	res.Distinct = res.Evaluations
 	res.Bounds["sessions"] = sessions
+}
+
+// Engine "phases" (C19): an unsolicited update issued by a registered plugin
+// at every point of its life from which it can be issued: from inside its
+// Configure handler (registered, Start has not returned yet), from inside its
+// Synchronize handler, right after Start returned, from inside an event
+// handler is excluded (the relay needs the lock the event holds).  Each must
+// reach the callback once and return no error.
+func runPhase(prop, phase string) (viol []string, sig string) {
+	add := func(kind, f string, a ...any) {
+		viol = append(viol, fmt.Sprintf(f, a...))
+		if sig == "" {
+			sig = prop + "|phases|" + kind
+		}
+	}
+	rt, err := full.NewRuntime()
+	if err != nil {
+		return []string{"machinery: " + err.Error()}, "machinery"
+	}
+	defer rt.Close()
+	if err := rt.Start(); err != nil {
+		return []string{"machinery: " + err.Error()}, "machinery"
+	}
+	var seen int32
+	rt.OnUpdate = func(us []*api.ContainerUpdate) ([]*api.ContainerUpdate, error) {
+		if len(us) == 1 && us[0].ContainerId == "u-"+phase {
+			atomic.AddInt32(&seen, 1)
+		}
+		return nil, nil
+	}
+	pl := full.NewPlugin("10", "ph")
+	type res struct{ err error }
+	resC := make(chan res, 1)
+	issue := func() {
+		done := make(chan error, 1)
+		go func() {
+			_, err := pl.Stub.UpdateContainers([]*api.ContainerUpdate{mkUpdate(0, "u-"+phase, false)})
+			done <- err
+		}()
+		select {
+		case err := <-done:
+			resC <- res{err}
+		case <-time.After(8 * time.Second):
+			resC <- res{fmt.Errorf("UpdateContainers did not return within 8 s")}
+		}
+	}
+	switch phase {
+	case "configure":
+		pl.ConfFn = func(string, string, string) (api.EventMask, error) { issue(); return 0, nil }
+	case "synchronize":
+		pl.SyncFn = func([]*api.PodSandbox, []*api.Container) ([]*api.ContainerUpdate, error) { issue(); return nil, nil }
+	}
+	defer func() {
+		if pl.Stub != nil {
+			pl.Stub.Stop()
+		}
+	}()
+	// StartDial creates pl.Stub inside; the handlers above need it: create the stub first
+	if err := pl.Prepare(rt); err != nil {
+		return []string{"machinery: " + err.Error()}, "machinery"
+	}
+	if err := pl.Restart(); err != nil {
+		add("start-failed", "phase %s: Start failed: %v", phase, err)
+		return
+	}
+	if phase == "started" {
+		issue()
+	}
+	select {
+	case r := <-resC:
+		if r.err != nil {
+			add("update-fails", "an update issued by a registered plugin %s returned %v", phaseText(phase), r.err)
+			return
+		}
+	case <-time.After(15 * time.Second):
+		add("machinery", "phase %s: the handler issuing the update never ran", phase)
+		sig = "machinery"
+		return
+	}
+	if got := atomic.LoadInt32(&seen); got != 1 {
+		add("callback-count", "an update issued %s reached the runtime's callback %d times", phaseText(phase), got)
+	}
+	return
+}
+
+func phaseText(p string) string {
+	switch p {
+	case "configure":
+		return "from inside its Configure handler (registered, Start not yet returned)"
+	case "synchronize":
+		return "from inside its Synchronize handler"
+	}
+	return "right after Start returned"
+}
+
+// Engine "queued" (C19): an update that has to wait - behind another plugin's
+// slow callback, or behind a runtime request whose handlers are slow - for
+// longer than the plugin request timeout is still delivered, once.
+func runQueued(prop, behind string, to time.Duration) (viol []string, sig string) {
+	add := func(kind, f string, a ...any) {
+		viol = append(viol, fmt.Sprintf(f, a...))
+		if sig == "" {
+			sig = prop + "|queued|" + kind
+		}
+	}
+	adaptation.SetPluginRequestTimeout(to)
+	defer adaptation.SetPluginRequestTimeout(5 * time.Second)
+	rt, err := full.NewRuntime()
+	if err != nil {
+		return []string{"machinery: " + err.Error()}, "machinery"
+	}
+	defer rt.Close()
+	if err := rt.Start(); err != nil {
+		return []string{"machinery: " + err.Error()}, "machinery"
+	}
+	a, b := full.NewPlugin("10", "qa"), full.NewPlugin("20", "qb")
+	for _, p := range []*full.Plugin{a, b} {
+		if err := p.Start(rt, nil); err != nil {
+			return []string{"machinery: " + err.Error()}, "machinery"
+		}
+		if !p.WaitActive(rt, 8*time.Second) {
+			return []string{"machinery: plugin not active"}, "machinery"
+		}
+	}
+	defer func() { b.Stub.Stop(); a.Stub.Stop() }()
+	var second int32
+	entered := make(chan struct{}, 1)
+	hold := time.Duration(float64(to) * 0.7) // each step stays below the timeout; together they exceed it
+	rt.OnUpdate = func(us []*api.ContainerUpdate) ([]*api.ContainerUpdate, error) {
+		if len(us) == 1 && us[0].ContainerId == "slow" {
+			entered <- struct{}{}
+			time.Sleep(2 * hold)
+		}
+		if len(us) == 1 && us[0].ContainerId == "queued" {
+			atomic.AddInt32(&second, 1)
+		}
+		return nil, nil
+	}
+	slowEv := func(string, *api.PodSandbox, *api.Container) error {
+		select {
+		case entered <- struct{}{}:
+		default:
+		}
+		time.Sleep(hold)
+		return nil
+	}
+	firstDone := make(chan struct{})
+	switch behind {
+	case "callback":
+		go func() {
+			a.Stub.UpdateContainers([]*api.ContainerUpdate{mkUpdate(0, "slow", false)})
+			close(firstDone)
+		}()
+	case "request":
+		a.EventFn, b.EventFn = slowEv, slowEv // two handlers of 0.7 x timeout each: 1.4 x in total
+		go func() {
+			rt.R.StartContainer(context.Background(), &api.StateChangeEvent{Pod: &api.PodSandbox{Id: "pod0"}, Container: &api.Container{Id: "c0"}})
+			close(firstDone)
+		}()
+	}
+	select {
+	case <-entered:
+	case <-time.After(8 * time.Second):
+		return []string{"machinery: the slow step never started"}, "machinery"
+	}
+	errC := make(chan error, 1)
+	go func() {
+		_, err := b.Stub.UpdateContainers([]*api.ContainerUpdate{mkUpdate(1, "queued", false)})
+		errC <- err
+	}()
+	what := fmt.Sprintf("an update queued behind a slow %s for longer than the %v request timeout", behind, to)
+	select {
+	case err := <-errC:
+		if err != nil {
+			add("queued-update-fails", "%s returned %v", what, err)
+		}
+	case <-time.After(6*to + 8*time.Second):
+		add("queued-update-stuck", "%s did not return", what)
+	}
+	<-firstDone
+	if got := atomic.LoadInt32(&second); got != 1 && len(viol) == 0 {
+		add("callback-count", "%s reached the runtime's callback %d times", what, got)
+	}
+	return
+}
+
+func enginePhasesQueued(f *rep.Flags, res *rep.Result) {
+	res.Engine = "unsol/" + f.Engine
+	type job struct {
+		kind, arg string
+	}
+	var jobs []job
+	if f.Engine == "phases" {
+		res.Rule = "an unsolicited update issued from inside the plugin's Configure handler, from inside its Synchronize handler, and right after Start returned: each reaches the runtime's callback exactly once and returns no error"
+		for _, p := range []string{"configure", "synchronize", "started"} {
+			jobs = append(jobs, job{"phase", p})
+		}
+	} else {
+		res.Rule = "an unsolicited update that waits behind another plugin's slow callback / behind a runtime request with slow handlers for longer than the plugin request timeout (300 ms) is delivered exactly once and returns no error; a failing case is repeated with timeouts x2 and x4"
+		for _, b := range []string{"callback", "request"} {
+			jobs = append(jobs, job{"queued", b})
+		}
+	}
+	for i, j := range jobs {
+		if i%f.NShards != f.Shard {
+			continue
+		}
+		var v []string
+		var sig string
+		fails := 0
+		for try := 0; try < 3; try++ {
+			if j.kind == "phase" {
+				v, sig = runPhase(f.Prop, j.arg)
+			} else {
+				v, sig = runQueued(f.Prop, j.arg, time.Duration(300*(1<<try))*time.Millisecond)
+			}
+			if len(v) == 0 {
+				break
+			}
+			fails++
+			time.Sleep(100 * time.Millisecond)
+		}
+		res.Evaluations++
+		res.States += 3
+		res.Transitions += 3
+		switch {
+		case fails == 0:
+		case fails < 3:
+			res.Notes = append(res.Notes, fmt.Sprintf("not reproduced three times in a row: %+v: %s", j, v))
+		case sig == "machinery":
+			res.Exhaustive = false
+			res.Notes = append(res.Notes, fmt.Sprintf("case skipped: %+v: %s", j, v[0]))
+		default:
+			res.Add(sig, strings.Join(v, "\n  "), map[string]any{"engine": f.Engine, "case": j.arg})
+		}
+	}
+	res.Distinct = res.Evaluations
+	res.Bounds["cases"] = len(jobs)
 }
